@@ -284,6 +284,9 @@ func (o *oracleC09) after(c *stepCtx) *ViolationRec {
 		}
 		want = []uint{decimal.DefaultDecimalPrec, d, m}
 	case "Parse", "SetString", "UnmarshalText", "UnmarshalJSON", "Scan", "Sscanf", "TextCopy", "JSONCopy":
+		if op.Name == "UnmarshalJSON" && strings.TrimSpace(op.S) == "null" {
+			return nil // encoding/json: a JSON null is a no-op, the value is left alone
+		}
 		want = []uint{decimal.DefaultDecimalPrec}
 	case "GobCopy":
 		want = []uint{c.pre[op.A[0]].Prec}
